@@ -1,42 +1,65 @@
 //! ad-hoc debugging helper (not part of any check)
-use vh::props::c01::Case;
 use vh::world::*;
 use yrs::updates::decoder::Decode;
 use yrs::{ReadTxn, Transact, Update};
 
+fn show(w: &World) {
+    for (k, rep) in w.reps.iter().enumerate() {
+        let txn = rep.doc.transact();
+        println!("   rep {} sv {:?} missing {} received {:?}", k, sv_to_vec(&txn.state_vector()), txn.has_missing_updates(), rep.received);
+        println!("        blocks {:?} skips {:?}", blocks(rep), yrs::verif_hooks::store_skips(txn.store()));
+    }
+}
+
+fn blocks(rep: &Replica) -> Vec<String> {
+    let txn = rep.doc.transact();
+    yrs::verif_hooks::store_blocks(txn.store())
+        .iter()
+        .map(|b| {
+            format!(
+                "{}#{}+{}{}",
+                b.client,
+                b.clock,
+                b.len,
+                match b.kind {
+                    yrs::verif_hooks::BlockKind::Item =>
+                        if b.deleted {
+                            "d"
+                        } else {
+                            ""
+                        },
+                    yrs::verif_hooks::BlockKind::GC => "gc",
+                    _ => "skip",
+                }
+            )
+        })
+        .collect()
+}
+
 fn main() {
     let path = std::env::args().nth(1).expect("replay file");
     let doc: serde_json::Value = serde_json::from_slice(&std::fs::read(path).unwrap()).unwrap();
-    let case: Case = serde_json::from_value(doc["case"].clone()).unwrap();
-    let mut w = World::new(&case.history.cfgs);
-    for (i, s) in case.history.steps.iter().enumerate() {
-        if let Step::Sync { from, to, .. } = s {
-            let sv = w.reps[*to as usize].sv();
-            let txn = w.reps[*from as usize].doc.transact();
-            let b = txn.encode_state_as_update_v1(&sv);
-            println!("SYNC bytes {:?}\n   decoded {:?}", b, Update::decode_v1(&b));
-            let mut enc = yrs::updates::encoder::EncoderV1::new();
-            txn.encode_state_as_update(&sv, &mut enc);
-            use yrs::updates::encoder::Encoder;
-            let raw = enc.to_vec();
-            println!("   without pending: {:?} decoded {:?}", raw, Update::decode_v1(&raw));
-            println!("   pending: {:?}", txn.store().pending_update().map(|p| format!("{:?} missing {:?}", p.update, p.missing)));
-        }
+    let history: History = serde_json::from_value(doc["case"]["history"].clone()).unwrap();
+    let mut w = World::new(&history.cfgs);
+    for (i, s) in history.steps.iter().enumerate() {
         let r = w.step(s);
         println!("step {} {:?} -> {:?}", i, s, r);
-        for (k, rep) in w.reps.iter().enumerate() {
-            let txn = rep.doc.transact();
-            println!("   rep {} sv {:?} missing {} received {:?}", k, sv_to_vec(&txn.state_vector()), txn.has_missing_updates(), rep.received);
-            println!("        blocks {:?} skips {:?}", yrs::verif_hooks::store_blocks(txn.store()).iter().map(|b| format!("{}#{}+{}{}", b.client, b.clock, b.len, match b.kind { yrs::verif_hooks::BlockKind::Item => if b.deleted {"d"} else {""}, yrs::verif_hooks::BlockKind::GC => "gc", _ => "skip" })).collect::<Vec<_>>(), yrs::verif_hooks::store_skips(txn.store()));
-        }
+        show(&w);
     }
     for (i, u) in w.updates.iter().enumerate() {
         println!("update {} by {} deps {:?}: {:?}", i, u.author, u.deps, Update::decode_v1(&u.v1).unwrap());
     }
-    let reference = Replica::new(Cfg { client: 9999, utf16: false, skip_gc: false, cleanup: false });
-    for (i, u) in w.updates.iter().enumerate() {
-        reference.apply_v1(&u.v1).unwrap();
-        let txn = reference.doc.transact();
-        println!("ref after {}: sv {:?} missing {} pending {:?} pending_ds {:?}", i, sv_to_vec(&txn.state_vector()), txn.has_missing_updates(), txn.store().pending_update().map(|p| format!("{:?}", p.update)), txn.store().pending_ds());
+    if doc["property"] == "C02" {
+        let case: vh::props::c02::Case = serde_json::from_value(doc["case"].clone()).unwrap();
+        let all: Vec<usize> = (0..w.updates.len()).collect();
+        let p = vh::props::c01::plan(&case.sched, &all);
+        let obs = Replica::new(case.observer.clone());
+        for d in p.iter() {
+            let r = vh::props::c01::exec_delivery(&w, &obs, d);
+            let txn = obs.doc.transact();
+            println!("deliver {:?} -> {:?}: sv {:?} missing {} blocks {:?}", d, r.is_ok(), sv_to_vec(&txn.state_vector()), txn.has_missing_updates(), blocks(&obs));
+            println!("    pending {:?}", txn.store().pending_update().map(|p| format!("{:?} missing {:?}", p.update, p.missing)));
+            println!("    pending_ds {:?}", txn.store().pending_ds());
+        }
     }
 }
